@@ -11,6 +11,7 @@ from typing import (
     Optional,
     Sequence,
     Union,
+    cast,
 )
 
 from ..exc import SchemaError, UnknownType
@@ -172,7 +173,7 @@ class Schema(ResolverMap):
                         "Cannot replace specified type %s" % original_type
                     )
 
-                busted_cache = new_type != original_type
+                busted_cache = busted_cache or (new_type != original_type)
 
                 if new_type is None:
                     del self.types[type_name]
@@ -546,12 +547,14 @@ class Schema(ResolverMap):
             query_type=self.query_type,
             mutation_type=self.mutation_type,
             subscription_type=self.subscription_type,
+            # Not all types are reachable from the root types.
+            types=list(self.types.values()),
             nodes=self.nodes,
         )
 
         cloned._replace_types_and_directives(
             types={
-                t.name: copy.copy(t)
+                t.name: _clone_type(t)
                 for t in self.types.values()
                 if (
                     t not in SPECIFIED_SCALAR_TYPES
@@ -559,7 +562,7 @@ class Schema(ResolverMap):
                 )
             },
             directives={
-                d.name: copy.copy(d)
+                d.name: _clone_directive(d)
                 for d in self.directives.values()
                 if d not in SPECIFIED_DIRECTIVES
             },
@@ -568,6 +571,36 @@ class Schema(ResolverMap):
         cloned.merge_resolvers(self)
 
         return cloned
+
+
+# Members (fields, arguments, input fields) hold a reference to their type which
+# is updated in place when fixing type references, they must not be shared
+# between a schema and its clones.
+def _clone_type(type_: NamedType) -> NamedType:
+    cloned = copy.copy(type_)
+    if isinstance(cloned, (ObjectType, InterfaceType)):
+        fields = []
+        for field in cast(ObjectType, type_).fields:
+            cloned_field = copy.copy(field)
+            cloned_field.arguments = [copy.copy(a) for a in field.arguments]
+            fields.append(cloned_field)
+        cloned.fields = fields
+    if isinstance(cloned, ObjectType):
+        cloned.interfaces = list(cast(ObjectType, type_).interfaces)
+    elif isinstance(cloned, UnionType):
+        cloned.types = list(cast(UnionType, type_).types)
+    elif isinstance(cloned, InputObjectType):
+        cloned.fields = [
+            copy.copy(f) for f in cast(InputObjectType, type_).fields
+        ]
+    return cloned
+
+
+def _clone_directive(directive: Directive) -> Directive:
+    cloned = copy.copy(directive)
+    cloned.arguments = [copy.copy(a) for a in directive.arguments]
+    cloned.argument_map = {a.name: a for a in cloned.arguments}
+    return cloned
 
 
 def _build_directive_map(maybe_directives: List[Any]) -> Dict[str, Directive]:
